@@ -80,6 +80,12 @@ theorem kc_delayCore (s : SeqState) (d : Int) (n : ChName) (atRest : Bool) :
         · exact Meta.rfl' s1
         · exact kc_withChan _ _ _
 
+theorem kc_delayChecked (s : SeqState) (d : Int) (n : ChName) (atRest : Bool) :
+    KeepsCalls s (delayChecked s d n atRest) := by
+  rcases delayChecked_cases s d n atRest with h | ⟨e, h⟩ <;> rw [h]
+  · exact kc_delayCore s d n atRest
+  · exact kc_fail s e
+
 theorem kc_alignLoop (tf : Int) (l : List (ChName × Int)) : ∀ s, KeepsCalls s (alignLoop tf l s) := by
   induction l with
   | nil => intro s; exact Meta.rfl' s
